@@ -7,7 +7,7 @@ from ..runner import Part
 PROPERTY = 'C07'
 LEVEL = 'exploration'
 RULE = ('maxdata M in {4096, 8192} x EVERY file size 0..3*chunk+64 (chunk = min(64 KiB, M/2)), M in {64 KiB, 256 KiB, 1 MiB} x every size within +-48 of each multiple of the '
-        'chunk and of each flush threshold; device path lengths {1, 64, 1018 (1024 with the mode suffix, the adbd limit)}; st_mode {default, 0o100644, 0}; mtime {0, 1, 2^32-1}; sources {BytesIO, file path, directory of '
+        'chunk and of each flush threshold; device paths with non-ASCII characters, spaces and commas; a second connect() to a device announcing another maxdata followed by another push; device path lengths {1, 64, 1018 (1024 with the mode suffix, the adbd limit)}; st_mode {default, 0o100644, 0}; mtime {0, 1, 2^32-1}; sources {BytesIO, file path, directory of '
         '0/1/3 files pushed from another / the parent / the same working directory}; callbacks {none, counting, raising, re-entrant (issues a stat on the same device while the push is running)}; the device withholding the final sync OKAY; both '
         'twins; oracle: the model filesystem holds exactly the source bytes under <device_path>[/<name>] with the mode and mtime sent (virtual now when 0), SEND argument '
         '<path>,<decimal mode>, every DATA <= 64 KiB, every WRTE payload <= M, one mkdir shell per directory, normal return only after the sync OKAY, callback counts sum to '
@@ -23,7 +23,7 @@ def data_of(size, salt=0):
 def run_push(params, ch):
     M, size, twin = params['M'], params['size'], params['twin']
     plen = params.get('plen', 6)
-    dpath = '/' + 'p' * (plen - 1)
+    dpath = params.get('dpath') or '/' + 'p' * (plen - 1)
     kw = {}
     if 'mode' in params:
         kw['st_mode'] = params['mode']
@@ -128,6 +128,37 @@ def run_push(params, ch):
         s.finish()
 
 
+def run_reconnect(params, ch):
+    M1, M2, size, twin = params['M1'], params['M2'], params['size'], params['twin']
+    data = data_of(size)
+    s = Session(ch, {'maxdata': M1}, twin=twin)
+    try:
+        viol = []
+        s.op(('connect',))
+        r1 = s.op(('push', ('bytes', data), '/first', {'mtime': 3}))
+        if params['close']:
+            s.op(('close',))
+        n0 = len(s.env.events)
+        rc = s.op(('connect', {'_sim': {'maxdata': M2}}))
+        r2 = s.op(('push', ('bytes', data[::-1]), '/second', {'mtime': 4}))
+        if (r1, rc, r2) != (('ok', None), ('ok', True), ('ok', None)):
+            viol.append({'msg': 'push / connect / push gave %r' % ((r1[:2], rc[:2], r2[:2]),)})
+        sizes = [len(p.data) for w, p in s.env.events[n0:] if w == 'H' and p.cmd == b'WRTE']
+        if any(z > M2 for z in sizes):
+            viol.append({'msg': 'after reconnecting to a device with maxdata %d (was %d) the host sent WRTE payloads of %r bytes' % (M2, M1, sorted(set(z for z in sizes if z > M2)))})
+        sends = [(x[0], x[3]) for x in s.env.fs.sends]
+        if sends != [(b'/first', data), (b'/second', data[::-1])] and not viol:
+            viol.append({'msg': 'device filesystem received %r' % ([(p, len(d)) for p, d in sends],)})
+        for x in s.env.fs.sends:
+            if any(c > 65536 for c in x[4]):
+                viol.append({'msg': 'DATA record of %d bytes exceeds 64 KiB' % max(x[4])})
+        viol += [{'msg': '%s: %s' % i} for i in s.env.issues]
+        return {'outcome': (r1[:2], r2[:2], tuple(sizes[:4])), 'viol': viol, 'nontrivial': tuple(sorted((k, str(v)) for k, v in params.items())),
+                'sample': dict(params, wrte_sizes_after_reconnect=sizes[:5]), 'trans': len(s.env.events)}
+    finally:
+        s.finish()
+
+
 def chunk_of(M):
     return min(65536, M // 2)
 
@@ -188,6 +219,13 @@ def parts(tier):
                     sc.append({'M': 4096, 'size': 3000, 'twin': t, 'src': 'dir', 'names': names, 'cwd': cwd, 'cb': cb})
     out.append(Part('modes-sources-callbacks', sc, run_push, what='st_mode x mtime x source kind x callback x withheld OKAY x directory pushes from three working directories',
                     bound='%d pushes' % len(sc)))
+    sc = [{'M': M, 'size': z, 'twin': t, 'src': src, 'dpath': dp} for M in (4096, 65536) for z in (0, 1, 5000) for t in twins for src in ('bytes', 'file')
+          for dp in ('/sdcard/caf\u00e9.bin', '/\u3042/\u3044', '/data/\U0001F600', '/a b/c,d')]
+    sc += [{'M': 4096, 'size': 3000, 'twin': t, 'src': 'dir', 'names': ['\u00fcber.txt', 'x'], 'cwd': 'elsewhere', 'dpath': '/sd/\u00e9'} for t in twins]
+    out.append(Part('non-ascii-paths', sc, run_push, what='device paths with non-ASCII characters, spaces and commas', bound='%d pushes' % len(sc)))
+    sc = [{'M1': a, 'M2': b, 'size': z, 'twin': t, 'close': c} for a in (4096, 65536, 1024 * 1024) for b in (4096, 65536, 1024 * 1024) for z in (100, 70000, 300000) for t in twins for c in (False, True)]
+    out.append(Part('reconnect-other-maxdata', sc, run_reconnect, what='push, connect() again (with or without close()) to a device announcing another maxdata, push again',
+                    bound='%d cases' % len(sc)))
     if tier == 'thorough':
         sc = [{'M': M, 'size': 5 * 1024 * 1024 + d, 'twin': t, 'src': s} for M in (4096, 1024 * 1024) for d in (0, 1) for t in twins for s in ('bytes', 'file')]
         out.append(Part('multi-mib', sc, run_push, what='5 MiB files', bound='%d pushes' % len(sc)))
